@@ -79,7 +79,8 @@ def cal_of(o: int):
 
 
 def mk_date(o, days):
-    return _P().LocalDate._ctor(days_since_epoch=days, calendar=cal_of(o))
+    import routes
+    return routes.routed_date(cal_of(o), days)
 
 
 def _mk_odt_plain(o, days, nod, off):
